@@ -1230,6 +1230,10 @@ int QSexact_basis_dualstatus(
 	mpq_ILLfct_compute_piz (p_mpq->lp); 
 	mpq_ILLfct_compute_dz (p_mpq->lp);
 	mpq_ILLfct_compute_dobj(p_mpq->lp); 
+	/* primal feasibility is not examined here: give set_status_values a value
+	 * that is none of PRIMAL_FEASIBLE / _INFEASIBLE / _UNBOUNDED instead of
+	 * whatever the stack holds */
+	fi.pstatus = 0;
 	mpq_ILLfct_check_dfeasible (p_mpq->lp, &fi, mpq_zeroLpNum);
 	mpq_ILLfct_set_status_values (p_mpq->lp, fi.pstatus, fi.dstatus, PHASEII, PHASEII);
 
